@@ -30,6 +30,8 @@ def g_cmd(c, table):
         return "QIter %s %s %s %s %s" % (g_src(c[1]), g_path(c[2], table), g_bool(c[3]), g_bool(c[4]), g_bool(c[5] if len(c) > 5 else True))
     if k == 'next':
         return "QNext %s" % g_nat(c[1])
+    if k == 'reiter':
+        return "QReiter %s" % g_nat(c[1])
     if k == 'drain':
         return "QDrain %s %s %s" % (g_nat(c[1]), g_nat(c[2]), g_nat(c[3]))
     if k == 'get_match':
